@@ -20,7 +20,7 @@ EXHAUSTIVE = {"quick": True, "thorough": True}
 NSHARDS = {"quick": 4, "thorough": 8}
 THRESHOLDS = {"quick": {"c14:positions": 4096, "c14:ids": 4096, "c14:unknown-id": 10, "c14:unknown-id-forms": 60, "c14:unknown-token": 20,
                         "c14:random-seq": 500, "c14:legacy-vocab": 450, "c14:legacy-vocab:descending": 150, "c14:legacy-vocab:random": 150, "c14:prefix-pairs": 1225, "c14:legacy-unknown": 100,
-                        "c14:legacy-codec": 450, "c14:legacy-rejudged-after-views": 450, "c14:cf-perm": 50}}
+                        "c14:legacy-codec": 450, "c14:deprecated-special-token-lookups": 8, "c14:legacy-rejudged-after-views": 450, "c14:cf-perm": 50}}
 THRESHOLDS["thorough"] = dict(THRESHOLDS["quick"])
 ANCHORS = ["maze_dataset.utils:corner_first_ndindex",
            "maze_dataset.tokenization.maze_tokenizer:MazeTokenizer._token_arr",
@@ -149,7 +149,11 @@ def run(ctx):
     def legacy_case(mode, n, order_tag):
         case = dict(mode=mode.value, max_grid_size=n, construction_order=order_tag)
         with ctx.guard("C14/legacy-vocab", case):
-            lt = MazeTokenizer(tokenization_mode=mode, max_grid_size=n)
+            # the size as a python int or as a numpy scalar of any integer type that holds it
+            mgs_forms = [int, np.int64, np.int8, np.uint8, np.int16, np.int32]
+            mgs = mgs_forms[(n + len(order_tag)) % len(mgs_forms)](n)
+            case["max_grid_size_type"] = type(mgs).__name__
+            lt = MazeTokenizer(tokenization_mode=mode, max_grid_size=mgs)
             arr = list(lt.token_arr)
             mp = lt.tokenizer_map
             ctx.ev(); ctx.tally("c14:legacy-vocab"); ctx.tally(f"c14:legacy-vocab:{order_tag}"); ctx.nontrivial("legacy", mode.value, n)
@@ -213,6 +217,19 @@ def run(ctx):
                 except Exception:  # noqa: BLE001
                     pass
 
+    # history: the special tokens looked up under their deprecated spellings (lower case, the old "adj_list" names) - the library
+    # answers with a DeprecationWarning; nothing built afterwards may differ
+    from maze_dataset.constants import SPECIAL_TOKENS
+    if ctx.shard % 2 == 1:
+        import warnings as _w
+        with _w.catch_warnings():
+            _w.simplefilter("ignore")
+            for key in ("adj_list_start", "ADJ_LIST_END", "adjlist_start", "path_start", "Padding", "ADJ_LIST_START"):
+                try:
+                    SPECIAL_TOKENS[key]
+                    ctx.tally("c14:deprecated-special-token-lookups")
+                except Exception:  # noqa: BLE001
+                    ctx.tally("c14:deprecated-lookup-rejected(not judged)")
     modes = list(TokenizationMode)
     mine_pairs = [(mode, n) for mi, mode in enumerate(modes) for n in range(1, 51) if ctx.mine(mi * 50 + n)]
     for order_tag in ("ascending", "descending", "random"):
